@@ -3146,13 +3146,7 @@ class RomanNumeral(Harmony):
             The number of the chord.
         """
         # Corrected step after degree2
-        key_step = re.search(r"[a-gA-G]", self.local_key).group(0)
-        key_alter = (
-            re.search(r"[#b]", self.local_key).group(0)
-            if re.search(r"[#b]", self.local_key)
-            else ""
-        )
-        key_alter = ALT_TO_INT[key_alter]
+        key_step, key_alter = _step_alter_of_name(self.local_key)
         try:
             interval = (
                 Roman2Interval_Min[self.secondary_degree]
@@ -3184,9 +3178,7 @@ class RomanNumeral(Harmony):
 
     def find_bass_note(self):
         # TODO add support for diminished and augmented chords
-        step = re.search(r"[a-gA-G]", self.root).group(0)
-        alter = re.search(r"[#b]", self.root)
-        alter = ALT_TO_INT[alter.group(0)] if alter else 0
+        step, alter = _step_alter_of_name(self.root)
 
         if self.inversion == 1:
             if self.primary_degree.islower():
@@ -6138,6 +6130,21 @@ def is_a_within_b(a, b, wholly=False):
     return contained
 
 
+def _step_alter_of_name(name):
+    """
+    Step letter and alteration of a key or note name.
+
+    The step is the first letter a-g / A-G (its case tells the mode of a key and is
+    kept); the alteration is counted from the accidentals that follow it: "#" raises,
+    "b" and "-" lower (so "b" is B minor, "bb" and "b-" are B flat minor, "B-" and
+    "Bb" are B flat major, "C##" is C double sharp).
+    """
+    match = re.search(r"[a-gA-G]", name)
+    accidentals = name[match.end() :]
+    alter = accidentals.count("#") - accidentals.count("b") - accidentals.count("-")
+    return match.group(0), alter
+
+
 def process_local_key(loc_k_text, glob_k_text, return_step_alter=False):
     local_key_sharps = loc_k_text.count("#")
     local_key_flats = loc_k_text.count("b")
@@ -6158,14 +6165,7 @@ def process_local_key(loc_k_text, glob_k_text, return_step_alter=False):
     transposition_interval = transposition_interval.change_quality(
         local_key_sharps - local_key_flats
     )
-    key_step = re.search(r"[a-gA-G]", glob_k_text).group(0)
-    key_alter = (
-        re.search(r"[#b]", glob_k_text).group(0)
-        if re.search(r"[#b]", glob_k_text)
-        else ""
-    )
-    key_alter = key_alter.replace("b", "-")
-    key_alter = ALT_TO_INT[key_alter]
+    key_step, key_alter = _step_alter_of_name(glob_k_text)
     key_step, key_alter = transpose_note(key_step, key_alter, transposition_interval)
     if return_step_alter:
         return key_step, key_alter
@@ -6246,12 +6246,7 @@ def process_local_key(loc_k, glob_k, return_step_alter=False):
     transposition_interval = transposition_interval.change_quality(
         local_key_sharps - local_key_flats
     )
-    key_step = re.search(r"[a-gA-G]", glob_k).group(0)
-    key_alter = (
-        re.search(r"[#b]", glob_k).group(0) if re.search(r"[#b]", glob_k) else ""
-    )
-    key_alter = key_alter.replace("b", "-")
-    key_alter = ALT_TO_INT[key_alter]
+    key_step, key_alter = _step_alter_of_name(glob_k)
     key_step, key_alter = transpose_note(key_step, key_alter, transposition_interval)
     if return_step_alter:
         return key_step, key_alter
